@@ -34,7 +34,7 @@ ASSUMPTIONS = [
 
 
 def floors(tier):
-    return {"removals-judged": 150, "C05.file-node": 150, "C05.lookup": 150, "C05.survivor-changed": 150, "victims-in-several-pgs": 5, "refused-removals": 15, "drill-removals": 20, "via:workspace": 50, "via:parent": 50, "mixed-association-groups": 30}
+    return {"removals-judged": 150, "C05.file-node": 150, "C05.lookup": 150, "C05.survivor-changed": 150, "victims-in-several-pgs": 5, "refused-removals": 15, "drill-removals": 20, "via:workspace": 50, "via:parent": 50, "mixed-association-groups": 60}
 
 
 def gen_cases(tier, seed):
@@ -48,13 +48,14 @@ def gen_cases(tier, seed):
         for how in ["create_property_group", "find_or_create", "by-name-then-other-association", "association-kwarg"]:
             for via in ["workspace", "parent"]:
                 for last in [False, True]:
-                    cases.append({"kind": "mixed-pg", "cls": cls, "how": how, "via": via, "last": last, "stored": k % 2 == 0})
-                    k += 1
+                    for stored in [False, True]:
+                        cases.append({"kind": "mixed-pg", "cls": cls, "how": how, "via": via, "last": last, "stored": stored})
+                        k += 1
     for i in range(n):
         if i % 6 == 5:
             cases.append({"kind": "drill", "n_ops": 8 if tier == "quick" else 16, "version": [2.0, 2.1][(i // 6) % 2]})
         else:
-            cases.append({"kind": "history", "profile": ["removal", "pg", "nested", "protect", "removal"][i % 6 % 5], "n_ops": [12, 18, 25][i % 3] if tier == "quick" else [20, 35, 50][i % 3], "gc": ["default", "off", "seeded"][(i // 6) % 3], "refs": ["strong", "refetch", "drop"][(i // 18) % 3]})
+            cases.append({"kind": "history", "profile": ["removal", "pg", "nested", "protect", "removal"][i % 6 % 5], "n_ops": [12, 18, 25][i % 3] if tier == "quick" else [20, 35, 50][i % 3], "gc": ["default", "off", "seeded", "aggressive"][(i // 6) % 4], "refs": ["strong", "refetch", "drop"][(i // 18) % 3]})
     return cases
 
 
@@ -278,6 +279,7 @@ def run_mixed_pg(case, rec, rng):
             victim = ws.get_entity(uuid.UUID(vuid))[0]
         rec.see("removals-judged")
         rec.see("via:" + via)
+        survivors = sorted(c.name for c in o.children if hasattr(c, "values") and c is not victim)
         try:
             if via == "workspace":
                 ws.remove_entity(victim)
@@ -294,6 +296,8 @@ def run_mixed_pg(case, rec, rng):
         gc.collect()
         _ = [e.uid for e in ws.data]  # reading a listing lets the workspace sweep dead referents (parent-route removals are lazy)
         gc.collect()
+        left = sorted(c.name for c in o.children if hasattr(c, "values"))
+        rec.check("C05.survivor-changed", left == survivors, op=where, cls=cls, attr="siblings", detail=f"data children after the removal {left}, expected exactly the other siblings {survivors}")
         pgs = {p.name: [str(x) for x in (p.properties or [])] for p in (o.property_groups or [])}
         bad = [n for n, m in pgs.items() if vuid in m]
         rec.check("C05.pg-mentions-removed", not bad, op=where, cls=cls, attr="live", detail=f"property group {bad} still lists the removed data ({how}, group association differs from the data's)")
@@ -319,6 +323,8 @@ def run_mixed_pg(case, rec, rng):
         rec.check("C05.file-node", f"Data/{{{vuid}}}" not in raw["nodes"], op=where, cls="Data", attr="", detail="removed grouped data still in the Data container")
         with Workspace(path, mode="r") as fresh:
             o2 = fresh.get_entity("subject")[0]
+            left2 = sorted(c.name for c in o2.children if hasattr(c, "values"))
+            rec.check("C05.survivor-changed", left2 == survivors, op=where + ":reopen", cls=cls, attr="siblings", detail=f"data children after re-open {left2}, expected {survivors}")
             for p in o2.property_groups or []:
                 try:
                     vals = p.collect_values
